@@ -108,6 +108,8 @@ type verifyCtx struct {
 	modElems  []modElem
 	modAll    bool
 	callOrd   map[ssa.Instruction]int
+	region    *regionInfo
+	children  map[*ssa.BasicBlock]*regionInfo
 }
 
 type loopInfo struct {
